@@ -107,11 +107,9 @@ def exec_for(ex, s: ast.For, st):
         seqs = [seq_value(it.args[0])]
         mode = "reversed"
     else:
-        try:
-            v = ev.expr(it) if not (isinstance(it, ast.Call) and isinstance(it.func, ast.Attribute)
-                                    and it.func.attr in ("items", "keys", "values")) else None
-        except Unsupported:
-            raise
+        is_comb = isinstance(it, ast.Call) and isinstance(it.func, ast.Name) and it.func.id == "combinations"
+        v = ev.expr(it) if not is_comb and not (isinstance(it, ast.Call) and isinstance(it.func, ast.Attribute)
+                                                and it.func.attr in ("items", "keys", "values")) else None
         if v is not None and isinstance(v.t, TList):
             seqs = [seq_value(it)]
             mode = "plain"
@@ -170,6 +168,58 @@ def exec_for(ex, s: ast.For, st):
             ex.block = orig_block
         return res
 
+    # ---- itertools.combinations(xs, 2): all index pairs p < q, each exactly once (ghost done-set of index pairs)
+    if (isinstance(it, ast.Call) and isinstance(it.func, ast.Name) and it.func.id == "combinations" and len(it.args) == 2
+            and isinstance(it.args[1], ast.Constant) and it.args[1].value == 2):
+        xs = seq_value(it.args[0])
+        pt = TTuple([INT, INT])
+        done_name = ls.done or f"_done{k}"
+        st.vars[done_name] = V(TMap(pt, BOOL), z3.K(sort_of(pt), z3.BoolVal(False)))
+        ex.check_invs(st, ls, "inv-entry", k, line=line)
+        h = st.copy()
+        from .symexec import target_root
+        tnames = set(target_root(s.target))
+        ex.havoc(h, w | {done_name}, f"L{k}")
+        dn = h.vars[done_name].z
+        n = list_len(xs)
+        qp = z3.Const(f"qp!comb{k}", sort_of(pt))
+        acc = sort_of(pt)
+
+        def member(t):
+            a0, a1 = acc.accessor(0, 0)(t), acc.accessor(0, 1)(t)
+            return z3.And(0 <= a0, a0 < a1, a1 < n)
+
+        h.pc.append(z3.ForAll([qp], z3.Implies(z3.Select(dn, qp), member(qp)), patterns=[z3.Select(dn, qp)]))
+        ex.assume_invs(h, ls)
+        x = fresh(pt, "pair")
+        enter = z3.And(member(x.z), z3.Not(z3.Select(dn, x.z)))
+        all_done = z3.ForAll([qp], z3.Implies(member(qp), z3.Select(dn, qp)), patterns=[z3.Select(dn, qp)])
+        p_, q_ = acc.accessor(0, 0)(x.z), acc.accessor(0, 1)(x.z)
+        val = mk_tuple(TTuple([xs.t.elem, xs.t.elem]), [z3.Select(list_arr(xs), p_), z3.Select(list_arr(xs), q_)])
+        pos_name = ls.index or f"_pair{k}"
+        orig_block = ex.block
+
+        def block_with_bind(stmts, bst):
+            if stmts is s.body:
+                bst.vars[pos_name] = x
+                ex.assign(bst, s.target, val, Eval(ex, bst))
+            return orig_block(stmts, bst)
+
+        ex.block = block_with_bind
+        try:
+            def stepf(s2):
+                s2.vars[done_name] = V(TMap(pt, BOOL), z3.Store(dn, x.z, z3.BoolVal(True)))
+                for tn in tnames | {pos_name}:
+                    s2.vars.pop(tn, None)
+
+            def after(exs):
+                for tn in tnames:
+                    exs.vars.pop(tn, None)
+
+            return ex.loop_body_and_exit(s, h, enter, all_done, k, ls, stepf, line, after_leave=after)
+        finally:
+            ex.block = orig_block
+
     # ---- dict / set iteration with a ghost 'done' set (order arbitrary: A6)
     coll_node, what = it, "keys"
     if isinstance(it, ast.Call) and isinstance(it.func, ast.Attribute) and it.func.attr in ("items", "keys", "values"):
@@ -184,26 +234,21 @@ def exec_for(ex, s: ast.For, st):
     done_name = ls.done or f"_done{k}"
     member = (lambda x: z3.Select(dict_dom(coll), x)) if isinstance(coll.t, TDict) else (
         lambda x: z3.Select(set_mem(coll), x))
-    card = dict_card(coll) if isinstance(coll.t, TDict) else set_card(coll)
-    cnt_name = done_name + "_n"
     st.vars[done_name] = V(TMap(kt, BOOL), z3.K(sort_of(kt), z3.BoolVal(False)))
-    st.vars[cnt_name] = V(INT, z3.IntVal(0))
     ex.check_invs(st, ls, "inv-entry", k, line=line)
     h = st.copy()
     from .symexec import target_root
     tnames = set(target_root(s.target))
-    ex.havoc(h, w | {done_name, cnt_name}, f"L{k}")
+    ex.havoc(h, w | {done_name}, f"L{k}")
     dn = h.vars[done_name].z
-    cn = h.vars[cnt_name].z
     x = fresh(kt, "it")
     q = z3.Const(f"q!done{k}", sort_of(kt))
+    # the done-set only holds members; the loop is entered with an arbitrary member not yet visited and
+    # left when every member has been visited (each element exactly once, order arbitrary: A6)
     h.pc.append(z3.ForAll([q], z3.Implies(z3.Select(dn, q), member(q)), patterns=[z3.Select(dn, q)]))
-    h.pc.append(z3.And(0 <= cn, cn <= card))
-    # cn == card  <=> everything visited
-    h.pc.append(z3.Implies(cn == card, z3.ForAll([q], z3.Implies(member(q), z3.Select(dn, q)),
-                                                 patterns=[z3.Select(dn, q)])))
     ex.assume_invs(h, ls)
-    enter = z3.And(cn < card, member(x.z), z3.Not(z3.Select(dn, x.z)))
+    enter = z3.And(member(x.z), z3.Not(z3.Select(dn, x.z)))
+    all_done = z3.ForAll([q], z3.Implies(member(q), z3.Select(dn, q)), patterns=[member(q)])
     if what == "keys":
         val = x
     elif what == "items":
@@ -221,7 +266,6 @@ def exec_for(ex, s: ast.For, st):
     try:
         def stepf(s2):
             s2.vars[done_name] = V(TMap(kt, BOOL), z3.Store(dn, x.z, z3.BoolVal(True)))
-            s2.vars[cnt_name] = V(INT, cn + 1)
             for tn in tnames:
                 s2.vars.pop(tn, None)
 
@@ -229,7 +273,7 @@ def exec_for(ex, s: ast.For, st):
             for tn in tnames:
                 exs.vars.pop(tn, None)
 
-        res = ex.loop_body_and_exit(s, h, enter, cn >= card, k, ls, stepf, line, after_leave=after)
+        res = ex.loop_body_and_exit(s, h, enter, all_done, k, ls, stepf, line, after_leave=after)
     finally:
         ex.block = orig_block
     return res
